@@ -115,7 +115,8 @@ def dd_model_conformance(chk, w, tier, module="DD", cfg="MC_DD_emit.cfg", insts_
     for o in outs:
         key = json.dumps([o["ii"], o["cut"], o["type"], o["width"], o["lb"], o["root"]], sort_keys=True)
         # an exact relaxed diagram is not drained by the solvers (nor by the engine): its cut-set is not part of the outcome
-        by.setdefault(key, []).append(json.dumps({"exact": o["exact"], "bv": o["bv"], "bev": o["bev"], "cs": [] if o["exact"] else sorted(o["cs"], key=json.dumps)}, sort_keys=True))
+        by.setdefault(key, []).append(json.dumps({"exact": o["exact"], "bv": o["bv"], "bev": o["bev"], "cs": [] if o["exact"] else sorted(o["cs"], key=lambda c: json.dumps(c, sort_keys=True)),
+                                                  "cu": sorted(o["cu"], key=lambda c: json.dumps(c, sort_keys=True))}, sort_keys=True))
     keys = sorted(by)
     inputs = []
     for k in keys:
@@ -127,11 +128,14 @@ def dd_model_conformance(chk, w, tier, module="DD", cfg="MC_DD_emit.cfg", insts_
     real = json.load(open(fo))
     match, miss = 0, []
     for k, o in zip(keys, real):
-        o2 = json.dumps({"exact": o["exact"], "bv": o["bv"], "bev": o["bev"], "cs": sorted([{"x": c["x"], "depth": c["depth"], "value": c["value"], "ub": c["ub"]} for c in o["cs"]], key=json.dumps)}, sort_keys=True)
+        o2 = json.dumps({"exact": o["exact"], "bv": o["bv"], "bev": o["bev"], "cs": sorted([{"x": c["x"], "depth": c["depth"], "value": c["value"], "ub": c["ub"]} for c in o["cs"]], key=lambda c: json.dumps(c, sort_keys=True)),
+                         "cu": sorted(o["cu"], key=lambda c: json.dumps(c, sort_keys=True))}, sort_keys=True)
         if o2 in by[k]:
             match += 1
         else:
-            miss.append({"input": json.loads(k), "real": json.loads(o2), "model": [json.loads(x) for x in by[k]][:3]})
+            strip = lambda x: {kk: vv for kk, vv in json.loads(x).items() if kk != "cu"}
+            only_cu = strip(o2) in [strip(x) for x in by[k]]
+            miss.append({"input": json.loads(k), "thresholds_only": only_cu, "real": json.loads(o2), "model": [json.loads(x) for x in by[k]][:3]})
     chk.cov[tagname + "_inputs_replayed_on_real_compilers"] = len(keys)
     chk.cov[tagname + "_outcome_sets_containing_the_real_outcome"] = match
     chk.cov[tagname + "_mismatches"] = miss[:5]
